@@ -463,6 +463,11 @@ func (c *StdioClient) SetRootsProvider(provider RootsProvider) {
 
 // SendRootsListChangedNotification notifies server that roots changed.
 func (c *StdioClient) SendRootsListChangedNotification(ctx context.Context) error {
+	// Like every other operation: nothing is sent (and no process is spawned) before a successful handshake.
+	if !c.initialized.Load() {
+		return fmt.Errorf("client not initialized")
+	}
+
 	// Create roots list changed notification.
 	notification := &JSONRPCNotification{
 		JSONRPC: JSONRPCVersion,
